@@ -366,6 +366,19 @@ class C20(Check):
                 out.append((f'errorpage hescape {hs(s)}', hs(om.html_escape(s)), dict(kind='hescape', s=s)))
                 out.append((f'errorpage quote {hs(s)}', hs(props_mixin.urlquote(s)), dict(kind='quote', s=s)))
 
+        # exhaustive small scope (thorough tier; validation of the model, not a decision): every string of
+        # length <= 3 over the special characters and one representative of each other class
+        if n >= 5000:
+            import itertools
+            alpha = ['<', '>', '"', "'", '&', '\\', 'a', '\n', '\xe9', '{', '\x7f', '\u2028']
+            for k in range(0, 4):
+                for tup in itertools.product(alpha, repeat=k):
+                    s = ''.join(tup)
+                    out.append((f'errorpage escape {hs(s)}', hs(error_render.sanitize_html.escape(s)), dict(kind='escape', s=s)))
+                    out.append((f'errorpage hescape {hs(s)}', hs(om.html_escape(s)), dict(kind='hescape', s=s)))
+                    out.append((f'errorpage repr {hs(s)}', hs(repr(s)), dict(kind='repr', s=s)))
+                    self.bump('unit:exhaustive<=3')
+
         # -- unit: json.dumps of the error dict and the JSON reader
         texts = []
         for _ in range(n // 2):
